@@ -13,6 +13,7 @@ import (
 	"github.com/GuanceCloud/platypus/pkg/engine/runtimev2"
 	"github.com/GuanceCloud/platypus/pkg/errchain"
 	"github.com/GuanceCloud/platypus/pkg/inimpl/guancecloud/input"
+	"verifharness/evid"
 	"verifharness/gen"
 	"verifharness/impl"
 	"verifharness/model"
@@ -28,6 +29,12 @@ type Case struct {
 	Tags    map[string]string
 	Fields  map[string]any
 	V2      bool
+	// Between is a case that is loaded and run between the first and the second run of this case's loaded
+	// scripts (set on replays of "earlier script re-run" failures).
+	Between *Case
+	// NoHistory switches the second-run checks of Decide off (signal-driven cases, v1/v2 differentials).
+	NoHistory bool
+	reportAs  *Case
 }
 
 func NewCase(prog []*gen.Node) *Case {
@@ -55,9 +62,24 @@ type Replay struct {
 	Fields map[string]string `json:"fields_rendered"`
 	V2     bool              `json:"v2,omitempty"`
 	Note   string            `json:"note,omitempty"`
+	// Between: a case loaded and run between two runs of this case's loaded scripts.
+	Between *Replay `json:"run_between,omitempty"`
 }
 
 func (c *Case) Replay(note string) Replay {
+	if c.reportAs != nil {
+		r := c.reportAs
+		c.reportAs = nil
+		return r.Replay(note)
+	}
+	if c.Between != nil {
+		b := c.Between.Replay("")
+		f := map[string]string{}
+		for k, v := range c.Fields {
+			f[k] = probe.Render(v)
+		}
+		return Replay{Texts: c.Texts, Root: c.Root, Meas: c.Meas, Tags: c.Tags, Fields: f, V2: c.V2, Note: note, Between: &b}
+	}
 	f := map[string]string{}
 	for k, v := range c.Fields {
 		f[k] = probe.Render(v)
@@ -78,6 +100,8 @@ type ImplOut struct {
 	Polls    int
 	After    int // probe calls after the signal was observed true
 	Aborted  bool
+	// Again runs the already loaded root script once more on a fresh point with the given fields.
+	Again func(fields map[string]any) ImplOut
 }
 
 var v1call, v1check = func() (map[string]plrt.FuncCall, map[string]plrt.FuncCheck) {
@@ -107,7 +131,22 @@ func RunV1(c *Case, fireAt int) ImplOut {
 		out.LoadErrs = map[string]error{c.Root: fmt.Errorf("root script neither accepted nor rejected")}
 		return out
 	}
-	pt := impl.NewPoint(c.Meas, c.Tags, c.Fields)
+	// an unrelated failing / cancelled run between this load and this run: it must not matter
+	impl.DisturbRun()
+	errs0 := out.LoadErrs
+	out = runLoadedV1(c, s, c.Fields, fireAt)
+	out.LoadErrs = errs0
+	out.Again = func(fields map[string]any) ImplOut {
+		o := runLoadedV1(c, s, fields, fireAt)
+		o.LoadErrs = errs0
+		return o
+	}
+	return out
+}
+
+func runLoadedV1(c *Case, s *plrt.Script, fields map[string]any, fireAt int) ImplOut {
+	var out ImplOut
+	pt := impl.NewPoint(c.Meas, c.Tags, fields)
 	sig := &probe.Sig{FireAt: fireAt}
 	func() {
 		defer func() {
@@ -150,6 +189,21 @@ func RunV2(c *Case, sig runtimev2.Signal) ImplOut {
 		out.LoadErrs = map[string]error{c.Root: err}
 		return out
 	}
+	out = runLoadedV2(s, sig)
+	out.Again = func(map[string]any) ImplOut {
+		var sig2 runtimev2.Signal
+		if ps, ok := sig.(*probe.Sig); ok {
+			sig2 = &probe.Sig{FireAt: ps.FireAt}
+		} else if sig != nil {
+			sig2 = sig
+		}
+		return runLoadedV2(s, sig2)
+	}
+	return out
+}
+
+func runLoadedV2(s *runtimev2.Script, sig runtimev2.Signal) ImplOut {
+	var out ImplOut
 	tr := &probe.Trace2{}
 	if ps, ok := sig.(*probe.Sig); ok {
 		tr.Sig = ps
@@ -342,8 +396,30 @@ type Verdict struct {
 	Rows    []string
 }
 
+// Quiet wraps the additional runs Decide makes (packages that capture standard output replace it).
+var Quiet = func(f func()) { f() }
+
+type remembered struct {
+	c                   *Case
+	pre                 ModelOut
+	again               func(map[string]any) ImplOut
+	extra               map[string]func(*model.Interp, *gen.Node) (any, error)
+	checkPoint, checkPos bool
+}
+
+// ring holds the most recent cases whose scripts stay loaded: after a later case has run, one of them is
+// run again and must still behave as its own text and point say.
+var ring []*remembered
+var ringNext int
+
+const ringSize = 6
+
 // Decide runs the case on both sides and accepts if the implementation matches the reference under
-// some assignment of the open rows the reference consulted.
+// some assignment of the open rows the reference consulted. Having matched, it looks at the history
+// around the case as well: the same loaded script run a second time on the same point, run on a point
+// whose fields changed type, and an earlier case's loaded script run again after this one - each run
+// must match the reference for its own text and point (a loaded script's behaviour is a function of its
+// text and the point, not of what ran before).
 func Decide(c *Case, run func() ImplOut, extra map[string]func(*model.Interp, *gen.Node) (any, error), checkPoint, checkPos bool) Verdict {
 	var v Verdict
 	// the reference runs first: a case that exhausts its fuel / size budget is dropped before the
@@ -356,13 +432,135 @@ func Decide(c *Case, run func() ImplOut, extra map[string]func(*model.Interp, *g
 	}
 	io := run()
 	v.Impl = io
-	if io.Crash != nil {
-		v.Msg = "implementation crashed: " + io.Crash.Value + "\n" + firstLines(io.Crash.Stack, 14)
+	v.Msg, v.Model, v.Rows = match(c, io, pre, extra, checkPoint, checkPos)
+	v.Weak = len(v.Rows) > 0
+	if v.Msg != "" || io.Again == nil || c.NoHistory || len(io.LoadErrs) > 0 {
 		return v
 	}
-	if io.Aborted {
-		v.Msg = "the run did not terminate (stopped after 200000 probe records / 3000000 polls) although the reference terminates"
+	// (a) between the two runs of this case, the replayed disturbing case (if any)
+	if c.Between != nil {
+		b := c.Between
+		Quiet(func() {
+			if b.V2 {
+				RunV2(b, &probe.Sig{})
+			} else {
+				RunV1(b, 0)
+			}
+		})
+	}
+	// (b) second run, same point
+	var io2 ImplOut
+	Quiet(func() { io2 = io.Again(c.Fields) })
+	evid.Label("history/second-run-same-point")
+	if msg, _, _ := match(c, io2, pre, extra, checkPoint, checkPos); msg != "" {
+		what := "a second run of the same loaded script on an equal point"
+		if c.Between != nil {
+			what = "a second run of the same loaded script on an equal point, after another script was loaded and run in between,"
+		}
+		v.Msg = what + " differs from the reference (the first run agreed): " + msg
 		return v
+	}
+	// (c) the same loaded script on a point whose fields changed type
+	if !c.V2 && len(c.Fields) > 0 {
+		c2 := *c
+		c2.Fields = retyped(c.Fields)
+		pre2 := RunModel(&c2, map[string]int{}, extra)
+		if pre2.Discard == nil {
+			var io3 ImplOut
+			Quiet(func() { io3 = io.Again(c2.Fields) })
+			evid.Label("history/run-on-retyped-point")
+			if msg, _, _ := match(&c2, io3, pre2, extra, checkPoint, checkPos); msg != "" {
+				v.Msg = fmt.Sprintf("a further run of the same loaded script on a point with fields %s differs from the reference (the first run agreed): %s", renderMap(c2.Fields), msg)
+				return v
+			}
+		}
+	}
+	// (d) an earlier case's loaded script, run again after this case
+	if len(ring) > 0 && c.Between == nil {
+		e := ring[ringNext%len(ring)]
+		if e.c.V2 == c.V2 {
+			pe := e.pre
+			{
+				var io4 ImplOut
+				Quiet(func() { io4 = e.again(e.c.Fields) })
+				evid.Label("history/earlier-script-rerun")
+				if msg, _, _ := match(e.c, io4, pe, e.extra, e.checkPoint, e.checkPos); msg != "" {
+					rep := *e.c
+					rep.Between = c
+					rep.reportAs = nil
+					c.reportAs = &rep
+					v.Msg = fmt.Sprintf("an earlier loaded script, run again on an equal point after the present case had run, differs from the reference (its first run agreed): %s\nearlier script:\n%s\nearlier point: tags %v fields %s", msg, e.c.Texts[e.c.Root], e.c.Tags, renderMap(e.c.Fields))
+					return v
+				}
+			}
+		}
+	}
+	if c.Between == nil {
+		r := &remembered{c: c, pre: pre, again: io.Again, extra: extra, checkPoint: checkPoint, checkPos: checkPos}
+		if len(ring) < ringSize {
+			ring = append(ring, r)
+		} else {
+			ring[ringNext%ringSize] = r
+		}
+		ringNext++
+	}
+	return v
+}
+
+func renderMap(f map[string]any) string {
+	ks := make([]string, 0, len(f))
+	for k := range f {
+		ks = append(ks, k)
+	}
+	sort.Strings(ks)
+	var b strings.Builder
+	b.WriteString("{")
+	for i, k := range ks {
+		if i > 0 {
+			b.WriteString(", ")
+		}
+		b.WriteString(k + ": " + probe.Render(f[k]))
+	}
+	b.WriteString("}")
+	return b.String()
+}
+
+// retyped changes the type of every field value: int <-> float, string -> int, bool -> string.
+func retyped(f map[string]any) map[string]any {
+	out := map[string]any{}
+	for k, v := range f {
+		switch x := v.(type) {
+		case int64:
+			out[k] = float64(x) + 0.5
+		case float64:
+			if x != x || x > 1e18 || x < -1e18 {
+				out[k] = int64(0)
+			} else {
+				out[k] = int64(x)
+			}
+		case string:
+			out[k] = int64(len(x))
+		case bool:
+			if x {
+				out[k] = "true"
+			} else {
+				out[k] = ""
+			}
+		default:
+			out[k] = v
+		}
+	}
+	return out
+}
+
+// match compares one implementation outcome with the reference; pre is the reference under the default
+// rows. It returns "" and the matching reference outcome, or the first difference.
+func match(c *Case, io ImplOut, pre ModelOut, extra map[string]func(*model.Interp, *gen.Node) (any, error), checkPoint, checkPos bool) (string, ModelOut, []string) {
+	if io.Crash != nil {
+		return "implementation crashed: " + io.Crash.Value + "\n" + firstLines(io.Crash.Stack, 14), pre, nil
+	}
+	if io.Aborted {
+		return "the run did not terminate (stopped after 200000 probe records / 3000000 polls) although the reference terminates", pre, nil
 	}
 	cmp := func(m ModelOut) string {
 		if len(io.LoadErrs) > 0 {
@@ -384,17 +582,13 @@ func Decide(c *Case, run func() ImplOut, extra map[string]func(*model.Interp, *g
 		return ""
 	}
 	m := pre
-	v.Model = m
 	first := cmp(m)
 	rows := touchedRows(m.Touched)
-	v.Rows = rows
-	v.Weak = len(rows) > 0
 	if first == "" {
-		return v
+		return "", m, rows
 	}
 	if len(rows) == 0 {
-		v.Msg = first
-		return v
+		return first, m, rows
 	}
 	// explore assignments of the open rows (rows touched may grow as behaviour changes)
 	seen := map[string]bool{"": true}
@@ -430,7 +624,7 @@ func Decide(c *Case, run func() ImplOut, extra map[string]func(*model.Interp, *g
 				continue
 			}
 			if cmp(mm) == "" {
-				return v
+				return "", mm, rows
 			}
 			for r := range mm.Touched {
 				if !all[r] {
@@ -443,8 +637,7 @@ func Decide(c *Case, run func() ImplOut, extra map[string]func(*model.Interp, *g
 			break
 		}
 	}
-	v.Msg = first + fmt.Sprintf(" (no assignment of the open rows %v matches either)", rows)
-	return v
+	return first + fmt.Sprintf(" (no assignment of the open rows %v matches either)", rows), m, rows
 }
 
 func touchedRows(t map[string]bool) []string {
@@ -516,6 +709,13 @@ func FromReplay(r Replay) (*Case, error) {
 		}
 		fillSpans(tree, src)
 		c.Scripts[name] = tree
+	}
+	if r.Between != nil {
+		b, err := FromReplay(*r.Between)
+		if err != nil {
+			return nil, err
+		}
+		c.Between = b
 	}
 	return c, nil
 }
